@@ -56,11 +56,11 @@ NAMES = {
     'sender': [':1.7', 'org.y'],
 }
 BAD = {
-    'path': ['', 'a', '/a/', '//', '/a//b', '/a-b', '/é'],
-    'interface': ['', 'a', 'a.', '.a', 'a..b', '1a.b', 'a.2b', 'a.b!', 'a' * 250 + '.bcdefg'],
-    'member': ['', '1a', 'a.b', 'a-b', 'm' * 256],
-    'error_name': ['', 'a', 'a.', 'a..b', '1.a'],
-    'destination': ['', 'a', 'a.', ':1.', ':.a', 'a:b.c', '1a.b', 'a..b', 'a.b!'],
+    'path': ['', 'a', '/a/', '//', '/a//b', '/a-b', '/é', '/a\n', '//a'],
+    'interface': ['', 'a', 'a.', '.a', 'a..b', '1a.b', 'a.2b', 'a.b!', 'a' * 250 + '.bcdefg', 'a.b\n', 'org.example.Iface\n', 'a.b.2c'],
+    'member': ['', '1a', 'a.b', 'a-b', 'm' * 256, 'M\n'],
+    'error_name': ['', 'a', 'a.', 'a..b', '1.a', 'a.Err\n', 'a.b.3c'],
+    'destination': ['', 'a', 'a.', ':1.', ':.a', 'a:b.c', '1a.b', 'a..b', 'a.b!', 'a.b\n', ':1.5\n', ':', ':1', ':1..5'],
 }
 REQ = {1: ['path', 'member'], 2: ['reply_serial'], 3: ['error_name', 'reply_serial'], 4: ['path', 'member', 'interface']}
 OPT = {1: ['interface', 'destination'], 2: ['destination'], 3: ['destination', 'sender'], 4: ['destination']}
